@@ -31,10 +31,18 @@ impl IoDriver {
     }
 
     pub(crate) async fn open(&self, path: impl AsRef<Path>) -> IOResult<File> {
+        #[cfg(pearl_verif)]
+        if let Some(e) = super::verif_io::hook_open(super::verif_io::Kind::Open, path.as_ref()) {
+            return Err(e);
+        }
         File::from_file(path, |f| f.create(false).append(true).read(true)).await
     }
 
     pub(crate) async fn create(&self, path: impl AsRef<Path>) -> IOResult<File> {
+        #[cfg(pearl_verif)]
+        if let Some(e) = super::verif_io::hook_open(super::verif_io::Kind::Create, path.as_ref()) {
+            return Err(e);
+        }
         File::from_file(path, |f| f.create(true).write(true).read(true)).await
     }
 }
@@ -99,6 +107,16 @@ impl File {
     }
 
     fn write_data(file: &StdFile, mut offset: u64, writable_data: WritableData) -> IOResult<()> {
+        #[cfg(pearl_verif)]
+        {
+            let hooked = match &writable_data {
+                WritableData::Single(b) => super::verif_io::hook_bytes(file, super::verif_io::Kind::Append, offset, &[&b[..]]),
+                WritableData::Double(b1, b2) => super::verif_io::hook_bytes(file, super::verif_io::Kind::Append, offset, &[&b1[..], &b2[..]]),
+            };
+            if let Some(r) = hooked {
+                return r;
+            }
+        }
         match writable_data {
             WritableData::Single(bytes) => file.write_all_at(&bytes, offset),
             WritableData::Double(b1, b2) => file.write_all_at(&b1, offset).and_then(|_| {
@@ -113,11 +131,19 @@ impl File {
         if Self::can_run_inplace(buf.len() as u64) {
             Self::inplace_sync_call(move || {
                 let offset = file_inner.size.fetch_add(buf.len() as u64, Ordering::SeqCst);
+                #[cfg(pearl_verif)]
+                if let Some(r) = super::verif_io::hook_bytes(&file_inner.std_file, super::verif_io::Kind::Append, offset, &[&buf[..]]) {
+                    return r;
+                }
                 file_inner.std_file.write_all_at(&buf, offset)
             })
         } else {
             Self::background_sync_call(move || {
                 let offset = file_inner.size.fetch_add(buf.len() as u64, Ordering::SeqCst);
+                #[cfg(pearl_verif)]
+                if let Some(r) = super::verif_io::hook_bytes(&file_inner.std_file, super::verif_io::Kind::Append, offset, &[&buf[..]]) {
+                    return r;
+                }
                 file_inner.std_file.write_all_at(&buf, offset)
             })
             .await
@@ -126,6 +152,10 @@ impl File {
 
     pub(crate) async fn write_all_at(&self, offset: u64, buf: Bytes) -> IOResult<()> {
         debug_assert!(offset + buf.len() as u64 <= self.size());
+        #[cfg(pearl_verif)]
+        if let Some(r) = super::verif_io::hook_bytes(&self.inner.std_file, super::verif_io::Kind::WriteAt, offset, &[&buf[..]]) {
+            return r;
+        }
         let file_inner = self.inner.clone();
         if Self::can_run_inplace(buf.len() as u64) {
             Self::inplace_sync_call(move || file_inner.std_file.write_all_at(&buf, offset))
@@ -166,6 +196,10 @@ impl File {
         let size = self.size();
         Self::background_sync_call(
             move || {
+               #[cfg(pearl_verif)]
+               if let Some(r) = super::verif_io::hook_sync(&file_inner.std_file) {
+                   return r;
+               }
                file_inner.std_file.sync_all()?;
                file_inner.synced_size.fetch_max(size, Ordering::SeqCst);
                Ok(())
